@@ -1,0 +1,56 @@
+// SPDX-License-Identifier: Apache-2.0
+// Copyright Authors of Cilium
+
+//go:build verif
+
+package statedb
+
+import (
+	"sync/atomic"
+	"time"
+)
+
+// Verification hooks. Only compiled with the "verif" build tag; without the
+// tag verifPoint is an empty function (verif_nohooks.go).
+
+var verifHook atomic.Pointer[func(point, handle string)]
+
+// SetVerifHook installs (or with nil removes) the function called at the
+// instrumented points of WriteTxn, Commit, Abort, registerTable and the
+// graveyard worker. 'handle' is the name of the DB handle of the transaction.
+func SetVerifHook(fn func(point, handle string)) {
+	if fn == nil {
+		verifHook.Store(nil)
+		return
+	}
+	verifHook.Store(&fn)
+}
+
+func verifPoint(point, handle string) {
+	if fn := verifHook.Load(); fn != nil {
+		(*fn)(point, handle)
+	}
+}
+
+// VerifSetGCInterval sets the graveyard collection rate limit interval. Must be
+// called before Start().
+func (db *DB) VerifSetGCInterval(interval time.Duration) {
+	db.setGCRateLimitInterval(interval)
+}
+
+// VerifEncodeNonUniqueKey exposes the composite key encoder of non-unique indexes.
+func VerifEncodeNonUniqueKey(primary, secondary []byte) []byte {
+	return encodeNonUniqueKey(primary, secondary)
+}
+
+// VerifEncodeNonUniqueBytes exposes the escaping used for search keys of non-unique indexes.
+func VerifEncodeNonUniqueBytes(src []byte) []byte {
+	return encodeNonUniqueBytes(src)
+}
+
+// VerifSplitNonUniqueKey splits a composite key into the encoded secondary and
+// primary parts.
+func VerifSplitNonUniqueKey(key []byte) (secondary, primary []byte) {
+	k := nonUniqueKey(key)
+	return k.encodedSecondary(), k.encodedPrimary()
+}
